@@ -446,9 +446,10 @@ def r5(R):
     R.require(n >= 1, 'no renames found in FileStorage')
 
 
-@rule('C08.R6', 'the packer decides that it has caught up from a read of the '
-      'data file made while it holds the commit lock, after the last time it '
-      'let commits through', props=['C07', 'C01'], min_instances=1)
+@rule('C08.R6', 'the packer decides that it has caught up from a look at the '
+      'data file, or at the storage\'s committed position, made while it '
+      'holds the commit lock, after the last time it let commits through',
+      props=['C07', 'C01'], min_instances=1)
 def r6(R):
     cls = R.prog.cls(PACKER)
     f = R.method(cls, 'pack')
@@ -468,6 +469,11 @@ def r6(R):
                 if op.path[-1] in ('_read_txn_header', '_read_num',
                                    '_read_data_header') and \
                         op.path[0] == 'self':
+                    return True
+                # ... or of the storage's committed position (which only
+                # moves under the commit lock)
+                if op.path[-1] == 'getSize' and len(op.path) >= 2 and \
+                        op.path[-2] == '_storage':
                     return True
         if node.kind == 'call' and node.info['target'].func.name in (
                 '_read_txn_header',):
@@ -736,3 +742,79 @@ def r9(R):
                         'sweep\'s cutoff' % (meth, ast.unparse(
                             op.ast.args[0])[:60]))
     R.require(n >= 2, 'sweeps not found')
+
+
+# ----------------------------------------------------------------- C08.R10
+@rule('C08.R10', 'once it holds the commit lock, the packer takes the end of '
+      'the data from the storage\'s committed position, never from the '
+      'physical end of the file, and copies later transactions only up to '
+      'that position (beyond it lie the remains of transactions that were '
+      'voted and never finished)', props=['C01', 'C05', 'C07'],
+      min_instances=2)
+def r10(R):
+    cls = R.prog.cls('ZODB.FileStorage.fspack.FileStoragePacker')
+    f = R.method(cls, 'pack')
+    g, b, F = R.cfg(f, cls, max_depth=0)
+    n = 0
+    for nid in sorted(g.reachable()):
+        node = g.nodes[nid]
+        for op in F.ops(node):
+            if op.kind == 'store' and path_is(op.path, ('self', 'file_end')):
+                n += 1
+                v = store_value(op)
+                pv = provenance(v, node.frame, F) if v is not None else set()
+                from_file = prov_has(pv, 'call', lambda p: p[-1] in (
+                    'tell', 'getsize', 'fstat', 'stat'))
+                from_storage = prov_has(pv, 'call', lambda p: p[-1] in (
+                    'getSize',)) or any(k == 'attr' and v_ == '_pos'
+                                        for k, v_ in pv)
+                R.instance('FileStoragePacker.pack: %s' % node.text(60),
+                           from_storage=from_storage)
+                if from_file or not from_storage:
+                    R.violation(
+                        node, 'the packer takes the physical end of the '
+                        'file for the end of the data: a complete, '
+                        'checkpoint-flagged record left beyond the '
+                        'committed position by a transaction that was voted '
+                        'and never finished is copied and indexed -- the '
+                        'never-committed revision becomes current, and a '
+                        'reopen truncates the file there, losing every '
+                        'later commit',
+                        key='pack end taken from the file')
+    f2 = R.method(cls, 'copyRest')
+    loops = [l for l in walk_local(f2.node) if isinstance(l, ast.While) and
+             any(isinstance(c, ast.Call) and isinstance(
+                 c.func, ast.Attribute) and c.func.attr == 'copyOne'
+                 for c in ast.walk(l))]
+    R.require(loops, 'copyRest no longer loops over copyOne')
+    for l in loops:
+        n += 1
+        def consults(e):
+            return any(
+                (isinstance(x, ast.Call) and isinstance(
+                    x.func, ast.Attribute) and x.func.attr == 'getSize') or
+                (isinstance(x, ast.Attribute) and x.attr in ('_pos',
+                                                             'file_end'))
+                for x in ast.walk(e))
+        # the loop test, or a test with a `break` that precedes the copy
+        bounded = consults(l.test)
+        for s_ in l.body:
+            if any(isinstance(c, ast.Call) and isinstance(
+                    c.func, ast.Attribute) and c.func.attr == 'copyOne'
+                    for c in ast.walk(s_)):
+                break
+            if isinstance(s_, ast.If) and consults(s_.test) and any(
+                    isinstance(y, (ast.Break, ast.Return))
+                    for y in ast.walk(s_)):
+                bounded = True
+        R.instance('FileStoragePacker.copyRest loop', bounded=bounded)
+        if not bounded:
+            R.violation(
+                (f2.module.relpath, f2.qualname, 'copy loop bound',
+                 l.lineno),
+                'copyRest copies transactions until reading fails at the '
+                'physical end of the file, not up to the storage\'s '
+                'committed position: what a never-finished transaction left '
+                'beyond that position is copied into the packed file',
+                key='copy loop not bounded by the committed position')
+    R.require(n >= 2, 'packer end handling not found')
